@@ -750,6 +750,38 @@ async def _phased_history(spec, phases):
     return res
 
 
+def _phased_signature(res):
+    """The signature of a phased disagreement is derived from what was OBSERVED (cause + complete shape of
+    the difference), never from the name of the case: D40 / D41 match only their own witnesses.
+    D40 (W1): the last phase edited a file in a directory that `watches` records as installed and not a
+    single item was queued; the only primary difference is that file's digest.
+    D41 (W2): at the end of the last phase the kernel holds a watch for a directory that `watches` records
+    as pending (the late IGNORED clobbered the entry), and the only primary difference is a file directly
+    under that directory that the watch side still has CONFIRMED and the restart found MISSING.
+    In both, the only secondary differences allowed are the cascade of that one file (consumer PENDING vs
+    SUCCEEDED, its output OUTDATED vs BUILT)."""
+    last = res["phases"][-1]
+    diff = res["diff"]
+    prim = [(k, a, b) for sec, k, a, b in diff if sec == "files" and a and b and not ({a[0], b[0]} <= {"BUILT", "OUTDATED"})]
+    casc = [(sec, k, a, b) for sec, k, a, b in diff if not (sec == "files" and a and b and not ({a[0], b[0]} <= {"BUILT", "OUTDATED"}))]
+    casc_ok = all((sec == "files" and a and b and a[0] == "BUILT" and b[0] == "OUTDATED" and a[1:] == b[1:])
+                  or (sec == "steps" and a and b and a[1] == "SUCCEEDED" and b[1] == "PENDING" and a[0] == b[0] and a[2:] == b[2:])
+                  for sec, k, a, b in casc)
+    if len(prim) != 1 or not casc_ok:
+        return "watch-vs-restart:phased:other"
+    path, a, b = prim[0]
+    parent = os.path.dirname(path) or "."
+    edited = [op[1] for batch in last["batches"] for op in batch if op[0] == "write"]
+    if (not last["items"] and path in edited and last["watches"].get(parent) is True
+            and a[0] == b[0] == "CONFIRMED" and a[1] != b[1]):
+        return SIG_W1
+    clobbered = [d for d in last["kernel"] if last["watches"].get(d) is False]
+    if (parent in clobbered and a[0] == "CONFIRMED" and b[0] == "MISSING"
+            and not any(k == "DELETED_PARENT" and q == parent for k, q in last["items"])):
+        return SIG_W2
+    return "watch-vs-restart:phased:other"
+
+
 def _run_phased(ctx):
     for name, (spec, phases) in PHASED.items():
         try:
@@ -763,7 +795,7 @@ def _run_phased(ctx):
             ctx.stats.setdefault("witness_replays", {})[name] = "disagrees" if res["diff"] else "agrees"
         if not res["diff"]:
             continue
-        sig = PHASED_EXPECT.get(name, "watch-vs-restart:phased:other")
+        sig = _phased_signature(res) if not res.get("error") else "watch-vs-restart:phased:watch-commit-exception"
         last = res["phases"][-1]
         ctx.add_failure("oracle", f"rebuild-vs-restart:{name}", sig,
                         f"{name}: after the phases {phases!r} (operations of one inner list applied before the watcher "
@@ -877,6 +909,10 @@ def _watchset_cases(ctx, nrandom):
     return checks, descr
 
 
+def _random_scripted(ctx, n):
+    return [(f"scripted-random-{k}", SC.random_scripted(ctx.rng)) for k in range(n)]
+
+
 def _run_scripted(ctx, extra=()):
     """Histories on the in-process Watcher with scripted queue items (harness/c14_scripted.py): no inotify
     instance, no generated Coq file: runs whatever else broke."""
@@ -976,7 +1012,7 @@ def correspondence(ctx):
 
 
 def oracle(ctx):
-    _run_scripted(ctx)
+    _run_scripted(ctx, _random_scripted(ctx, ctx.scale(25, 400)))
     _run_phased(ctx)
     checks, descr = _run_histories(ctx, ctx.scale(40, 400))
     if ctx.stats.get("histories_skipped_no_inotify_instance"):
@@ -1029,7 +1065,7 @@ def _run_sys(ctx, ngen):
                 continue
             if r.get("watch_error"):
                 sig = "sys:watch-phase:exception:" + r["watch_error"].split(":")[0]
-            elif name.startswith("D10d-"):
+            elif _is_d10d(r):
                 sig = SIG_D10D
             else:
                 sig = "sys:watch-vs-restart:" + S.diff_signature(r["diff"])
@@ -1047,7 +1083,29 @@ def _run_sys(ctx, ngen):
                                      "build_kwargs": kw, "diff": S.short_diff(r["diff"], 8)})
 
 
+def _is_d10d(r):
+    """D10d by cause and shape, not by case name: nothing inside the new directory was queued, the watch-mode rebuild ran
+    nothing, and every difference is a node / file that only the restart has (the new match in the new,
+    never watched directory, its step, its output) or the registering step's recorded matches."""
+    obs = r.get("observed") or {}
+    new_dirs = {e["path"].split("/")[0] for e in r["edits"] if e.get("op") == "write" and "/" in e.get("path", "")}
+    # (late events of the previous build's own outputs may be recorded and pruned as unchanged)
+    if r.get("watch_executed") or any(p.split("/")[0] in new_dirs for p in list(obs.get("updated", [])) + list(obs.get("deleted", []))):
+        return False
+    for d in r["diff"]:
+        if d["field"] == "file" and d.get("a") is None:
+            continue
+        if d["field"] == "graph" and d.get("a") is None and any(x in str(d["key"]) for x in new_dirs):
+            continue
+        if d["field"] == "graph" and d.get("a") and d.get("b") and "nglob" in (d["a"].get("props") or {}):
+            continue
+        return False
+    return bool(new_dirs)
+
+
 def search(ctx):
+    """Implementation-only oracle families at a larger scale (they need neither coq/gen nor the model)."""
+    _run_scripted_only(ctx, _random_scripted(ctx, 600))
     _run_histories(ctx, 300, do_model=False)
 
 
